@@ -88,6 +88,7 @@ pub fn row_for(fe: &FrontEnd) -> Option<Row> {
                 let mut segs = c_like("var zzqx = 1", "var zzqs = \"zzqstring é😀 zzqword\"", None, true);
                 // a compiler directive followed by documentation in the same comment block
                 segs.push(seg("directive-then-doc", Kind::Prose, "//go:generate zzqtool\n// {}", true));
+                segs.push(seg("two-directives-then-doc", Kind::Prose, "//go:generate zzqtool\n//go:build zzqtag\n// {}", true));
                 Row { prefix: "package zzqp\n", suffix: "", separator: "var zzqsep = 0", indentable: true, segs }
             }
             "c" | "cpp" => Row { prefix: "", suffix: "", separator: sep_c, indentable: true, segs: c_like("int zzqx = 1;", "const char* zzqs = \"zzqstring é😀 zzqword\";", Some("/** {} */"), true) },
@@ -298,7 +299,7 @@ pub fn generate(row: &Row, seq: &[usize], indent: &str, nl: &str, class: Class, 
             forbidden.push((a, count(&text), "list-terminator"));
         }
         // a compiler directive is only recognised at the start of a comment block
-        if s.name == "directive-then-doc" && prev_comment_before.is_some() {
+        if (s.name == "directive-then-doc" || s.name == "two-directives-then-doc") && prev_comment_before.is_some() {
             let a = count(&text);
             text.push_str(&format!("{indent}{}{nl}", row.separator));
             forbidden.push((a, count(&text), "separator-code"));
